@@ -415,6 +415,32 @@ theorem short_io_transparent_copy (E : Enc σ) (fuel ib ob : Nat) (e : σ) (data
     obtain ⟨k1, k2⟩ := Copy.loop_sim E fuel hsim
     exact ⟨k1, fun hne => ⟨(k2 hne).elog, (k2 hne).enc, (k2 hne).got⟩⟩
 
+/-- `caller_read_sizes_do_not_move_chunk_boundaries`: after every successful `read` — whatever
+buffer length the caller passed — the reader's own buffer is "full or empty" (`Reader.Full`: a
+complete load, or EOF, or nothing left), and in such a state, while bytes are still waiting, the
+next `read` makes NO call on the wrapped reader and leaves the buffer as it is.  So the wrapped
+reader is only ever asked when the window is empty, every input offered to the encoder is a suffix
+of one complete load of the own buffer, and the load boundaries (multiples of the buffer size in
+the source) do not depend on the caller's read sizes.  (`read` guards `copy_to_front` with
+`avail_in == 0` for exactly this: compacting a partly consumed load would let the next refill top
+it up — `copyToFront_Full` needs the window to be empty.)  That the BYTES are then independent of
+the read sizes is the encoder's half — C05 — and is compared on the real code by the pair oracle of
+the harness (`adapters:reader-bytes-depend-on-read-sizes`). -/
+theorem caller_read_sizes_do_not_move_chunk_boundaries (E : Enc σ) (fuel : Nat) (r : Reader σ) (hwf : r.WF)
+    (cap : Nat) (hc : 0 < cap) (r' : Reader σ) (bs : Bytes) (h : Reader.read E fuel r cap = (r', .done (.ok bs))) :
+    r'.Full ∧ r'.WF ∧
+    (r'.window ≠ [] → r'.fill.2 = none ∧ r'.fill.1.src = r'.src ∧ r'.fill.1.buf = r'.buf ∧
+      r'.fill.1.window = r'.window) := by
+  unfold Reader.read at h
+  rw [if_neg (by omega), if_neg (by have := hwf.1; omega)] at h
+  have hF := readLoop_Full E cap fuel r r' bs hwf h
+  have hW := (readLoop_ok E cap fuel r r' bs hwf h).1
+  refine ⟨hF, hW, fun hw => ?_⟩
+  obtain ⟨a1, a2, a3, _, _, _, a7⟩ := fill_no_top_up r' hW hF hw
+  exact ⟨a1, a2, a3, a7⟩
+
+example : (Reader.new 4196 (⟨[], false⟩ : Toy) ⟨[1, 2, 3], [], .full, []⟩).Full := Reader.new_Full _ _ _
+
 /-! ## if every call succeeded the stream is complete -/
 
 /-- a caller session on the std layer: `write` each chunk in turn; `true` = every one returned `Ok` -/
